@@ -13,6 +13,7 @@ pub proof fn lemma_sig_bytes()
 //@ params query_parameters
 //@ hideutf8
 //@ props C08 C10 C18 C02 C17
+//@ consumers C01 C12 C15
 //@ ret r
 //@ replace 1 `key != X_AMZ_SIGNATURE` => `string_ne_str(key, X_AMZ_SIGNATURE)`
 //@ replace 1 `results.sort_unstable();` => `sort_unstable_pairs(&mut results);`
